@@ -215,6 +215,7 @@ def run_decay(t, case, seed):
     t.outcomes[f"method:{meth}"] += 1
     Y = S.decay(a, N)                      # N x l
     dt = 1.0 / case["fs"]
+    _collider(case, seed, Y.shape, br, om, refs, meth)
 
     # -- function route ---------------------------------------------------------------------------
     H = None
@@ -276,6 +277,31 @@ def run_decay(t, case, seed):
             _raised(t, case, seed, "mpe", e)
         if res is not None:
             judge(t, case, seed, "mpe", *res)
+
+
+_NOISE = {}
+
+
+def _collider(case, seed, shape, br, om, refs, meth):
+    """Forced collision: immediately before the judged calls, the same algorithm class is run with IDENTICAL shapes and
+    parameters on DIFFERENT data (payload noise) in another setup, and its result is thrown away. A library that keeps
+    state between calls (a cache keyed by shape/parameters, a scratch buffer hoisted to module or class scope) then serves
+    stale data to the judged run, which is no longer exact. On a stateless library this changes nothing."""
+    from pyoma2.algorithms import SSIcov, SSIdat
+    from pyoma2.setup import SingleSetup
+
+    if shape not in _NOISE:
+        _NOISE.clear()
+        _NOISE[shape] = payload.normal(seed, f"c01/collider/{shape[0]}x{shape[1]}", shape)
+    l = shape[1]  # noqa: E741
+    try:
+        ss = SingleSetup(_NOISE[shape].copy(), case["fs"])
+        cls = SSIcov if meth == "cov_mm" else SSIdat
+        ref_ind = None if refs == list(range(l)) else [int(i) for i in refs]
+        ss.add_algorithms(cls(name="a", method=meth, br=int(br), ordmax=int(om), ref_ind=ref_ind, hc=dict(HC)))
+        ss.run_by_name("a")
+    except Exception:
+        pass
 
 
 def run_exact(t, case, seed):
